@@ -125,6 +125,34 @@ def casts(F, res, reach):
                     if orig and all(o.kind == "call" and (o.callee.endswith("::position") or o.callee.endswith("Iterator::position") or "enumerate" in o.callee
                                                           or o.callee.endswith("::len")) for o in orig):
                         by = "D-INDEX: position / length of an in-memory collection, computed in an inlined helper"
+            if by is None and rv["from"] == "usize" and f["def_kind"] != "Closure":
+                # the index is a parameter of a small helper (`fn found_index_or(found: Option<usize>, ..) -> Result<u32, _>`): judged
+                # in every caller, with the crate's helpers (this one among them) inlined two levels deep
+                orig0 = mir.provenance(f, du, rv["op"], transparent_extra=("std::option::Option::<T>::unwrap",))
+                if orig0 and all(o.kind == "arg" for o in orig0):
+                    from ..common import callers_index
+                    callers = [(g, ct) for g, ct in callers_index(F).get(p, []) if g["crate"].startswith("tx3") and not is_derive(g)]
+                    good_all = bool(callers)
+
+                    def want_h(t_, callee, crate=f["crate"]):
+                        return callee["crate"] == crate and not callee.get("impl_trait") and not callee.get("trait_default") and len(callee["blocks"]) <= 80
+                    _KEEP_C.append(want_h)
+                    for g, ct in callers:
+                        hi = mir.inline_calls(F, g, want=want_h, depth=2)
+                        dh = mir.DefUse(hi)
+                        found_here = False
+                        for bj, sj, s2 in mir.stmts(hi):
+                            r2 = s2["rv"]
+                            if hi["blocks"][bj].get("inl") == p and r2["k"] == "cast" and r2.get("ck") == "IntToInt" and r2.get("from") == rv["from"] and r2.get("to") == rv["to"]:
+                                found_here = True
+                                o2 = mir.provenance(hi, dh, r2["op"], transparent_extra=("std::option::Option::<T>::unwrap",))
+                                if not (o2 and all(o.kind == "call" and (o.callee.endswith("::position") or o.callee.endswith("Iterator::position") or "enumerate" in o.callee
+                                                                         or o.callee.endswith("::len")) for o in o2)):
+                                    good_all = False
+                        if not found_here:
+                            good_all = False
+                    if good_all:
+                        by = "D-INDEX: position / length of an in-memory collection at every call of this helper (%d caller(s), helpers inlined)" % len(callers)
             if by is None and key in rows:
                 by = "D-TABLE: " + rows[key]
             if by is None:
@@ -137,6 +165,9 @@ def casts(F, res, reach):
             else:
                 res.add([finding("CAST", key, w, "`as %s` on a %s: values outside the %s range are silently wrapped/truncated" % (rv["to"], rv["from"], rv["to"]))])
     res.count("lossy casts", n)
+
+
+_KEEP_C = []
 
 
 def _closure_arg_is_index(F, f, du, op):
